@@ -12,6 +12,7 @@ struct G {
     u64 index;
     bool thorough;
     Json ops = Json::arr();
+    Json cells = Json::arr();   // finite-space cells this run covers (for the enumeration evidence)
     G(u64 rs, const std::string &p, const std::string &t, u64 idx)
         : world(rs, "world"), plan(rs, "plan"), data(rs, "data"), faults(rs, "faults"), prop(p), tier(t), index(idx), thorough(t == "thorough") {}
 };
@@ -208,28 +209,33 @@ static const std::vector<XorSet> &xor_all_sets() {
 }
 static void gen_c05(G &g, u64 base_seed) {
     const std::vector<XorSet> &all = xor_all_sets();
-    if (g.index % 12 == 11) {
+    // run indexes 2j and 2j+1 do the same thing on the two XOR kernel flavours (index parity selects the worker's flavour)
+    u64 jj = g.index / 2;
+    if (jj % 12 == 11) {
         // shape whitelist: everything outside the 38 tables must be refused
-        u64 chunk = g.index / 12;
+        u64 chunk = (jj / 12) * 2 + (g.index & 1);
         for (int i = 0; i < 72; i++) {
             u64 q = (chunk * 72 + i) % (34 * 9 * 8);
             Cfg c; c.be = BE_XOR; c.k = (int) (q % 34); c.m = (int) ((q / 34) % 9); c.hd = (int) (q / (34 * 9)); c.ct = 1;
             bool ok = ref::xor_golden(c.k, c.m, c.hd) != nullptr;
+            g.cells.push(std::string("box:") + std::to_string(q));
             g.ops.push(create_op(0, c, ok ? 1 : 0));
             if (ok) { Json d = mk("DESTROY"); d.set("slot", 0); g.ops.push(d); }
         }
         return;
     }
     // seed-keyed permutation of the 24191 (table, erasure set) pairs; quick takes a prefix that is stratified by table
-    u64 N = all.size(), run = g.index - g.index / 12;
+    u64 N = all.size(), run = jj - jj / 12;
     u64 pos;
+    Rng pick(mix_seed(base_seed, "c05-head", run));   // same choice for both flavours of the pair
     if (run < (u64) XOR_GOLDEN_N * 12) {
         // stratified head: every table, every erasure size, chosen by seed
         int t = (int) (run % XOR_GOLDEN_N); int sz = (int) ((run / XOR_GOLDEN_N) % XOR_GOLDEN[t].hd);
         std::vector<u64> cand; for (u64 i = 0; i < N; i++) if (all[i].table == t && __builtin_popcountll(all[i].lost) == sz) cand.push_back(i);
-        pos = cand[g.plan.below(cand.size())];
-    } else pos = ((run * 7919ULL) + (base_seed % N)) % N;
+        pos = cand[pick.below(cand.size())];
+    } else pos = (((run - (u64) XOR_GOLDEN_N * 12) * 7919ULL) + (base_seed % N)) % N;
     const XorSet &xs = all[pos];
+    g.cells.push(std::string("xor:") + std::to_string(pos) + ((g.index & 1) ? ":portable" : ":sse2"));
     Cfg c = xor_shape_index(xs.table); c.ct = g.world.chance(1, 2) ? 2 : 1;
     g.ops.push(create_op(0, c));
     Json p = put_op(g, 0, 0, c);
@@ -350,7 +356,7 @@ static void gen_c09(G &g) {
     for (int i = 0; i < rounds; i++) {
         Rng &r = g.faults;
         Json fx = header_damage(g, 0, false);
-        if (i == 0) { fx = Json::arr(); fx.push(fx_flip((i64) (g.index % 640))); }  // the 640 single-bit flips, swept by run index
+        if (i == 0) { fx = Json::arr(); fx.push(fx_flip((i64) (g.index % 640))); g.cells.push(std::string("bit:") + std::to_string(g.index % 640)); }  // the 640 single-bit flips, swept by run index
         unsigned x = (unsigned) r.below(10);
         int dev = (int) r.below(n);
         if (x < 6) { Json j = mk("SCRUB"); j.set("obj", 0).set("slot", 0).set("dev", dev).set("al", pick_al(r)).set("fx", fx); g.ops.push(j); }
@@ -539,6 +545,7 @@ Json gen_plan(const std::string &prop, const std::string &tier, u64 base_seed, u
     else if (prop == "C20") gen_c20(g);
     else if (prop == "C18") gen_threads(g, plan);
     else gen_history(g);
+    if (g.cells.size()) plan.set("cells", g.cells);
     if (!plan.has("threads")) plan.set("ops", g.ops);   // thread plans set their own set-up "ops"
     return plan;
 }
